@@ -25,6 +25,31 @@ Proof. exact run_ok. Qed.
 Theorem C01_table_invariant_initially : forall E, table_ok E [].
 Proof. exact table_ok_nil. Qed.
 
+(* The closed forms: the length hypothesis is discharged by the amplification bound
+   (every application reply is at most 7 * |request| + 4500 bytes when the dumped constants are
+   shorter than 2048 bytes -- env_small, re-decided per run -- and the date string has at most 64 bytes). *)
+From MS Require Import Proofs.ReplyBytes.
+Theorem C01_no_panic_closed :
+  forall E cfg clk tb f,
+    env_ok E = true -> env_small E = true -> (length (clk_date clk) <= 64)%nat ->
+    table_ok E tb -> frame_ok f ->
+    exists tb' r evs, reply E cfg clk tb f = Ok (tb', r, evs) /\ table_ok E tb'.
+Proof. exact reply_ok_closed. Qed.
+
+Theorem C01_histories_closed :
+  forall E cfg, env_ok E = true -> env_small E = true ->
+  forall h, Forall (fun cf => frame_ok (snd cf) /\ (length (clk_date (fst cf)) <= 64)%nat) h ->
+    exists tb', run E cfg [] h = Ok tb' /\ table_ok E tb'.
+Proof. exact run_ok_closed. Qed.
+
+(* the per-run obligation on the current data *)
+From MS Require Import Instance.
+Theorem C01_current_env_small : env_small the_env = true.
+Proof. vm_compute. reflexivity. Qed.
+
+Print Assumptions C01_no_panic_closed.
+Print Assumptions C01_histories_closed.
+Print Assumptions C01_current_env_small.
 Print Assumptions C01_no_panic.
 Print Assumptions C01_histories.
 Print Assumptions C01_table_invariant_initially.
